@@ -104,6 +104,25 @@ def judge(text: str, lines: list[str], width: int, ii: str, si: str, *, fill: bo
         if any(nb):
             dev.append(("lossless", {"why": "output for empty input", "lines": lines[:3]}))
         return dev
+    # Reader-independent first: the characters that came out are the characters that went in (white space aside, and a
+    # protecting backslash on the first word of a line). The token-based clauses below take their words from the splitter of
+    # the code under test, which would agree with itself about a word it mangles on both sides.
+    flat, pos, bad_line = S.replace(" ", ""), 0, -1
+    for i, b in enumerate(nb):
+        if not b:
+            continue
+        for cand in (unescape_variants(b) if ((i > 0 or first_line_escape) and allow_escape) else [b]):
+            c = cand.replace(" ", "")
+            if flat.startswith(c, pos):
+                pos += len(c)
+                break
+        else:
+            bad_line = i
+            break
+    if bad_line >= 0 or pos != len(flat):
+        dev.append(("lossless", {"why": "characters differ from the input", "line": bad_line if bad_line >= 0 else len(nb),
+                                 "got": (nb[bad_line] if bad_line >= 0 else "<text missing at the end>")[:80], "input_at": flat[pos:pos + 40]}))
+        return dev
     split = get_html_md_word_splitter()
     if plain_tokens:
         # the text is known (by construction) to hold no atomic construct: its words are its white-space separated tokens,
